@@ -14,9 +14,8 @@ use rpki::resources::asn::{Asn, SmallAsnSet};
 use rpki::rtr::payload::RouteOrigin;
 use serde_json::{json, Value};
 use std::cmp::Ordering;
-use std::collections::hash_map::DefaultHasher;
 use std::collections::{BTreeSet, HashSet};
-use std::hash::{Hash, Hasher};
+use std::hash::Hash;
 use std::net::{IpAddr, Ipv4Addr, Ipv6Addr};
 use std::str::FromStr;
 
